@@ -1,6 +1,7 @@
 package main
 
 import (
+	"errors"
 	"fmt"
 	"sort"
 
@@ -26,6 +27,25 @@ type Wide struct {
 	U int
 	// Seq is the rank of insertion (identifies the object in messages)
 	Seq int
+	// K is unique (used by the long-batch part of C07; the sweeps give every object its own)
+	K string `sod:"unique"`
+}
+
+var errWideInvalid = errors.New("wide: invalid")
+
+// Validate refuses the value -99.
+func (w *Wide) Validate() error {
+	if w.A == -99 {
+		return errWideInvalid
+	}
+	return nil
+}
+
+var wideSerial int
+
+func wideKey() string {
+	wideSerial++
+	return fmt.Sprintf("k%06d", wideSerial)
 }
 
 type wideModel struct {
@@ -185,7 +205,7 @@ func longIndexSweep(c *Ctx, cfg Cfg, length, idx int) []Violation {
 			return true
 		}
 		for i, v := range digits {
-			o := &Wide{A: v, B: wideB(v), U: v, Seq: i}
+			o := &Wide{A: v, B: wideB(v), U: v, Seq: i, K: wideKey()}
 			if err := db.InsertOrUpdate(o); err != nil {
 				fail("insert", fmt.Sprintf("insert #%d failed: %v", i, err))
 				return
@@ -203,7 +223,7 @@ func longIndexSweep(c *Ctx, cfg Cfg, length, idx int) []Violation {
 		// in-place updates, then deletions
 		for i := range model {
 			nv := (model[i].v + 1 + i%2) % 3
-			o := &Wide{A: nv, B: wideB(nv), U: nv, Seq: model[i].seq}
+			o := &Wide{A: nv, B: wideB(nv), U: nv, Seq: model[i].seq, K: wideKey()}
 			o.Initialize(model[i].uuid)
 			if err := db.InsertOrUpdate(o); err != nil {
 				fail("update", fmt.Sprintf("update of #%d failed: %v", i, err))
@@ -425,7 +445,7 @@ func longOrderSweep(c *Ctx, cfg Cfg, length, idx int) []Violation {
 		var uuids []string
 		vals := map[string]int{}
 		for i, v := range digits {
-			o := &Wide{A: v, B: wideB(v), U: v, Seq: i}
+			o := &Wide{A: v, B: wideB(v), U: v, Seq: i, K: wideKey()}
 			if err := db.InsertOrUpdate(o); err != nil {
 				fail("insert", fmt.Sprintf("insert #%d failed: %v", i, err))
 				return
@@ -439,7 +459,7 @@ func longOrderSweep(c *Ctx, cfg Cfg, length, idx int) []Violation {
 		}
 		for i, u := range uuids {
 			nv := (vals[u] + 1 + i%2) % 3
-			o := &Wide{A: nv, B: wideB(nv), U: nv, Seq: i}
+			o := &Wide{A: nv, B: wideB(nv), U: nv, Seq: i, K: wideKey()}
 			o.Initialize(u)
 			if err := db.InsertOrUpdate(o); err != nil {
 				fail("update", fmt.Sprintf("update of #%d failed: %v", i, err))
